@@ -68,6 +68,15 @@ def run(ctx):
     tbl = ";".join("%s,%s" % (hx(U(d)), orc[d].replace("\t", ",")) for d in doms)
     il = ["builder.ops\t" + ";".join(op_s(o) for o in ops) for ops in seqs]
     impl = run_impl(il)
+    # the same call sequences from the other two constructors (MessageBuilder::new(), MessageBuilder::default()) must build the same message
+    ctor_bad = []
+    sub = [k for k in range(len(seqs)) if any(o[0] in ("bcc", "keepbcc", "envelope") for o in seqs[k])][:300] + [k for k in range(len(seqs)) if seqs[k]][::7][:150]
+    for ctor in ("new", "default"):
+        alt = run_impl(["builder.ops\tctor,%s;%s" % (ctor, il[k].split("\t", 1)[1]) for k in sub])
+        ctx.count(len(sub))
+        for k, r in zip(sub, alt):
+            if r != impl[k]:
+                ctor_bad.append((k, ctor, r, impl[k]))
     model = run_model([l + "\t" + tbl for l in il])
     spec = run_model(["spec.build\t" + ";".join(op_s(o) for o in ops) for ops in seqs])
     ctx.count(3 * len(seqs))
@@ -89,6 +98,7 @@ def run(ctx):
                     hits[c] = hits.get(c, 0) + 1
             else:
                 unexpl.append((k, strip(i), spec[k]))
+    ctx.cov.setdefault("oracle_ctor", {"constructors_agree": {"sequences": len(sub), "failures": len(ctor_bad)}})
     ctx.cov["correspondence"] = {"builder.ops": {"sequences": len(seqs), "disagreements": len(diffs)}}
     ctx.cov["oracle"] = {"spec_build_on_impl": {"sequences": len(seqs), "unexplained": len(unexpl), "known_class_hits": dict(hits)},
                          "one_date_one_from_no_mime_for_raw_body": {"failures": len(hdr_bad)}}
@@ -99,6 +109,9 @@ def run(ctx):
     if unexpl:
         k, i, s = min(unexpl, key=lambda t: len(seqs[t[0]]))
         ctx.violation({"kind": "oracle", "entry": "MessageBuilder ... body()", "ops": il[k], "impl": i, "spec": s, "failures": len(unexpl)})
+    if ctor_bad:
+        k, ctor, r, r0 = ctor_bad[0]
+        ctx.violation({"kind": "oracle", "entry": "MessageBuilder::%s()" % ctor, "ops": il[k], "impl": r, "what": "the same calls on MessageBuilder::%s() build another message than on Message::builder(): %s vs %s" % (ctor, r[:200], r0[:200]), "failures": len(ctor_bad)})
     if hdr_bad:
         ctx.violation({"kind": "oracle", "entry": "header counts of a built message", "ops": il[hdr_bad[0][0]], "counts": hdr_bad[0][1]})
     if diffs and not ctx.violations:
